@@ -195,13 +195,19 @@ def run(chk):
                     y_[6 + n_:] = 100.0
                     return y_
                 opened_k = []
-                with U.fake_ode(flow_bh_), U.patched(np, "loadtxt", lambda p_, *a_, **k_: (opened_k.append(str(p_)), real_loadtxt(p_, *a_, **k_))[1]):
-                    emf.InitialBHPopulation.from_IMF(PowerLawIMF([0.1, 0.5, 1.0, 100], [-0.5, -1.3, -2.5], N0=1e5), [1, 1, 4], x, natal_kicks=True)
+                km_ = rng.choice(["maxwellian", "f12", "fryer2012", "F12", "Maxwellian"])      # every documented spelling of the fallback-scaled kicks
+                try:
+                    with U.fake_ode(flow_bh_), U.patched(np, "loadtxt", lambda p_, *a_, **k_: (opened_k.append(str(p_)), real_loadtxt(p_, *a_, **k_))[1]):
+                        emf.InitialBHPopulation.from_IMF(PowerLawIMF([0.1, 0.5, 1.0, 100], [-0.5, -1.3, -2.5], N0=1e5), [1, 1, 4], x, natal_kicks=True, kick_method=km_)
+                except Exception as e:  # noqa
+                    chk.fail("every metallicity maps to an existing table", dict(FeH=x, through="InitialBHPopulation.from_IMF(natal_kicks=True, kick_method=%r)" % km_),
+                             dict(error=type(e).__name__, msg=str(e)[-80:]))
+                    continue
                 tabs_ = sorted(set(re.search(r"IFMR_FEH([+-]\d+\.\d\d)\.dat", p_).group(1) for p_ in opened_k if "uSSE_rapid" in p_))
                 ls_b, neg_b, pos_b = grids["banerjee20"]
                 chk.count("BH-population constructions with kicks: tables opened")
                 if len(opened_k) < 4 or len(tabs_) != 1 or not nearest_ok(x, int(round(float(tabs_[0]) * 100)), -neg_b, pos_b):
-                    chk.fail("kick fallback fractions come from the same nearest table", dict(FeH=x, through="InitialBHPopulation.from_IMF(natal_kicks=True)"),
+                    chk.fail("kick fallback fractions come from the same nearest table", dict(FeH=x, through="InitialBHPopulation.from_IMF(natal_kicks=True, kick_method=%r)" % km_),
                              dict(tables_opened=tabs_, files=len(opened_k)))
                 k0 = int(np.argmin(np.abs(ms[:, 0] - x)))
                 a0_, a1_, a2_ = ms[k0, 1:]
